@@ -19,8 +19,8 @@ ASSUMPTIONS = [
     "product (tensor level: C01, C03); numbers are real symbols (complex amplitudes are not modelled; all identities are polynomial)",
     "chain lengths N = 1..5 (quick) / 1..7 (thorough)",
 ]
-NOT_DECIDED = ["measure_overlap / measure_mpo / zipper / variational compression / product states / mps_from_tensor represent the dense "
-               "object (Env2 contractions, floating point)"]
+NOT_DECIDED = ["zipper / variational compression / mps_from_tensor / mpo_from_tensor / product states (LAPACK inside): only the BOUNDED stand-in "
+               "h_mps_numeric (enumerated families x N x seeds, 1e-9) -- not a proof"]
 
 
 class BT(GT):
@@ -274,6 +274,11 @@ from contracts.mps_values import h_env3_refresh, h_overlap_values, h_mpo_values,
 FUNCTIONS = list(FUNCTIONS) + [f_ for f_ in MV.FUNCTIONS if f_ not in FUNCTIONS]
 
 
+import contracts.mps_bounded as MB
+from contracts.mps_bounded import h_mps_numeric
+BOUNDED_HARNESSES = {'h_mps_numeric'}
+
+
 def units(tier):
     U = MV.units(tier, 'C06')
     th = tier == 'thorough'
@@ -297,4 +302,5 @@ def units(tier):
         for N in Ns:
             U.append(('h_multiply', f"N={N},mpo@{'mps' if nr == 1 else 'mpo'}", dict(N=N, nr_phys_b=nr)))
     U.append(('h_add_rejects', 'x', {}))
+    U = U + MB.units(tier)
     return U
